@@ -466,6 +466,7 @@ type Macro struct {
 	Params []string
 	Body   Expr
 	Rec    bool // uninterpreted recursive spec function
+	UF     bool // uninterpreted specification function (no body)
 	Src    string
 	PTypes []string
 	RType  string
@@ -504,7 +505,7 @@ var clauseKeywords = map[string]bool{
 	"requires": true, "ensures": true, "modifies": true, "loop": true, "maypanic": true,
 	"opaque": true, "pure": true, "assume": true, "noinline": true, "overflow": true,
 	"wraps": true, "fresh": true, "at": true, "induction": true, "params": true,
-	"ghost": true, "chaninv": true,
+	"ghost": true, "chaninv": true, "ufunc": true,
 }
 
 // parseContractLines parses the "//@" lines of one package.
@@ -568,6 +569,13 @@ func parseContractLines(pkg string, lines []string) (*PkgContracts, error) {
 			}
 			key := strings.TrimSpace(rest[:k])
 			pc.ChanInvs[key] = append(pc.ChanInvs[key], &Clause{Kind: "chaninv", Label: label, Src: src, E: e})
+			cur, curLemma = nil, nil
+		case "ufunc":
+			name, params, ptypes, rtype, err := parseSig(rest)
+			if err != nil {
+				return nil, fmt.Errorf("%s: ufunc %s: %v", pkg, rest, err)
+			}
+			pc.Macros[name] = &Macro{Name: name, Params: params, PTypes: ptypes, RType: strings.TrimSpace(rtype), UF: true}
 			cur, curLemma = nil, nil
 		case "spec", "pred":
 			m, err := parseMacro(kw, rest)
